@@ -1,7 +1,8 @@
 (* C03 - encoder output equals the X.690 encoding computed by an independent reference.
    Statements only. *)
 From PV Require Import Base.Bytes Model.Tag Model.Types Model.TableTypes Model.Enc Spec.X690 Gen.Tables
-     Proofs.SpecOctets Proofs.TagsetShape Proofs.RoundTrip1 Proofs.DerReference.
+     Proofs.SpecOctets Proofs.TagsetShape Proofs.RoundTrip1 Proofs.DerReference
+     Proofs.ReaderSound Proofs.ReaderModel Proofs.ReaderCer Proofs.ReaderBer Proofs.ReaderBerDeep.
 Local Open Scope N_scope.
 
 (* the reference's identifier octets (positional base-128 digits, X.690 8.1.2) are the octets the
@@ -63,5 +64,54 @@ Example C03_refuted_empty_optional_constructed_F24 :
   exists T v b b', encode DER true 0 T v = Ok b /\ X690.der T v = Some b' /\ b <> b'.
 Proof.
   exists (TSeq [(Opt, TSeqOf TInt)]), (VRec [Some (VList [])]), [48; 0], [48; 2; 48; 0].
+  vm_compute. repeat split; discriminate.
+Qed.
+
+(* Second half of the property, for every input: every BER encoder output, in every mode (definite or
+   indefinite, any chunk size), read by the independent X.690 reader guided by the same type, denotes
+   the same abstract value - simple types under any tags, and SEQUENCE / SEQUENCE OF nesting to any
+   depth.  unamb: consecutive OPTIONAL/DEFAULT components have distinct tags (X.680 25.6); indef_ok:
+   outside finding F01, and no component whose encoding starts with a 00 octet sits directly inside an
+   indefinite-length wrapper (it would read as end-of-contents) *)
+Theorem C03_ber_output_reads_deep : forall T v defMode chunk b,
+  der_ref_deep T v = true -> unamb T = true -> (defMode = false -> indef_ok T = true) ->
+  encode BER defMode chunk T v = Ok b -> N.of_nat (length b) < max_len ->
+  X690.read T b = Some (abs T v, []).
+Proof. exact ber_output_reads_deep. Qed.
+Print Assumptions C03_ber_output_reads_deep.
+
+Theorem C03_der_output_reads_deep : forall T v b,
+  der_ref_deep T v = true -> unamb T = true -> encode DER true 0 T v = Ok b -> N.of_nat (length b) < max_len ->
+  X690.read T b = Some (abs T v, []).
+Proof. exact der_encoder_output_reads. Qed.
+Print Assumptions C03_der_output_reads_deep.
+
+(* CER: the encoder's output IS the reference's canonical CER encoding (whatever options the caller
+   passes), it reads back to the same abstract value, and it meets the canonical-form rules
+   (indefinite length exactly for constructed encodings, 1000-octet segments, FF for TRUE) *)
+Theorem C03_cer_is_reference_simple : forall T v d k b,
+  der_ref_val T v = true -> ReaderModel.no_f01 T = true -> encode CER d k T v = Ok b -> X690.cer T v = Some b.
+Proof. exact cer_is_reference_simple. Qed.
+Print Assumptions C03_cer_is_reference_simple.
+
+Theorem C03_cer_output_reads_simple : forall T v defMode chunk b,
+  der_ref_val T v = true -> ReaderModel.no_f01 T = true -> eoc_safe T = true ->
+  encode CER defMode chunk T v = Ok b -> N.of_nat (length b) < max_len ->
+  X690.read T b = Some (abs T v, []).
+Proof. exact cer_output_reads_simple. Qed.
+Print Assumptions C03_cer_output_reads_simple.
+
+Theorem C03_cer_output_canonical : forall T v d k b,
+  der_ref_val T v = true -> ReaderModel.no_f01 T = true -> eoc_safe T = true ->
+  (indef_base (base_of T) = true \/ (length b <= 1001)%nat) ->
+  encode CER d k T v = Ok b -> cer_canonical b = true.
+Proof. exact cer_output_canonical. Qed.
+Print Assumptions C03_cer_output_canonical.
+
+(* F01 seen from the theorem's side *)
+Example C03_refuted_F01 :
+  exists T v b b', encode CER true 0 T v = Ok b /\ X690.cer T v = Some b' /\ b <> b'.
+Proof.
+  exists (TExp (mkTag Ctx false 1) TInt), (VInt 5), [161; 3; 2; 1; 5; 0; 0], [161; 128; 2; 1; 5; 0; 0].
   vm_compute. repeat split; discriminate.
 Qed.
